@@ -380,6 +380,11 @@ def items(tier, seed):
             out.append(("ephem_edges", body, JD_EOP_LO + c * span, JD_EOP_LO + (c + 1) * span))
     for seg in range(14):
         out.append(("ephem_segment", seg, seed))
+    for target in _batch_targets():
+        out.append(("ephem_batch", target, seed, tier))
+    lay_eps = [by["seed_day"], by["edge4_at"]] if tier != "thorough" else ep[:13]
+    for ei, e in enumerate(lay_eps):
+        out.append(("batch_layouts", list(e), ei))
     for year in range(2014, 2023):
         out.append(("ephem_analytic", year, seed))
     out.append(("constants",))
@@ -410,6 +415,16 @@ def bounds(tier, seed):
         "body_speed_bounds_km_s": V_MAX,
         "near_boundary_epochs_in_total_and_term_lattices": [e[0] for e in _epochs(tier, seed) if e[0].startswith("edge") and not e[3]],
         "analytic_grid": "6 h over the whole span",
+        "batch_layouts": "every ordered K-tuple with repeats (K = 2, 3, 4) of three states of different Sun-geometry "
+        "class and altitude (sunlit LEO, half penumbra at 800 km, umbra at GEO) + every permutation of those and a fourth "
+        "(sunlit, 10 Earth radii): %d layouts per epoch, every column against its K=1 evaluation and the reference" % len(_layouts()),
+        "batched_epoch_targets": _batch_targets(),
+        "batched_epoch_pool_offsets_days_from_32d_edge": list(_batch_offsets(tier)),
+        "batched_epoch_arrays": "per target: every ordered tuple with repeats of length 1, 2, 3 of the pool (list); every "
+        "ordered 4-tuple of the sub-pool %s and 5-tuple of %s; whole pool ascending / descending / every rotation / "
+        "interleaved / palindrome / twice / each epoch doubled; every ordered tuple of length 1..3 of the 5-epoch sub-pool "
+        "as %s (+ 0-d array, numpy scalar, float for one epoch): %d arrays"
+        % (list(BATCH_SUB4), list(BATCH_SUB3), list(BATCH_CONTAINERS), len(_batch_arrays(len(_batch_offsets(tier))))),
     }
 
 
@@ -1452,6 +1467,10 @@ def _dispatch(res, item):
         _run_ephem_segment(res, item)
     elif kind == "ephem_analytic":
         _run_ephem_analytic(res, item)
+    elif kind == "ephem_batch":
+        _run_ephem_batch(res, item)
+    elif kind == "batch_layouts":
+        _run_batch_layouts(res, item)
     elif kind == "constants":
         _run_constants(res, item)
     elif kind == "oracle_selfcheck":
